@@ -38,7 +38,10 @@ def _run(ck, P, cfg):
         fns.add(f.name)
         inst = "%s:%s" % (f.name, kind)
         if f.name not in LIST_TABLE:
-            ck.violated("C15.2", "outsider:%s" % f.name, node.where, "%s touches the buffer head (%s); only the four queue functions may" % (f.name, kind), cfg)
+            if kind in ("read", "atomic-load"):
+                ck.inconclusive("C15.2", "outsider-read:%s" % f.name, node.where, "%s reads the buffer head; a read alone cannot lose messages" % f.name, cfg)
+            else:
+                ck.violated("C15.2", "outsider:%s" % f.name, node.where, "%s touches the buffer head (%s); only the four queue functions may" % (f.name, kind), cfg)
         elif kind not in LIST_TABLE[f.name][0]:
             ck.violated("C15.2", inst, node.where, "%s performs %s on the buffer head; allowed: %s (%s)" % (f.name, kind, sorted(LIST_TABLE[f.name][0]), LIST_TABLE[f.name][1]), cfg)
         else:
